@@ -38,6 +38,9 @@ def gen_algo_case(rng, ctx, classes="D1 D2 D3 D3 D4 D5 D6 D7 D8 D9 D10 D10", sch
     cls, ds = gen.dataset(rng, classes=classes, nmax=nmax, mmax=6)
     ds = libx.normalise_raw(ds)
     scls, sch = gen.scheme(rng, schemes)
+    if rng.random() < 0.15:
+        # the only family PickAPerm (alone or as a starter / auxiliary) accepts on incomplete data
+        scls, sch = "unifying-multiple", gen.scale(ref.PRESETS["unifying"], rng.choice([1.0] + gen.SCALES + gen.ODD_SCALES))
     if "D" in ctx.mode:
         chosen = list(libx.CPLEX_CONFIGS) + ["Exact", "ExactNoOpt", "ParCons"] + rng.sample(libx.BASE_CONFIGS, 2)
     else:
